@@ -3,6 +3,7 @@ package eng
 import (
 	"context"
 	"fmt"
+	enumsspb "go.temporal.io/server/api/enums/v1"
 	"io"
 	"os"
 	"runtime"
@@ -257,11 +258,23 @@ func c06Msg(id int64) *repResp {
 	return msgResp(id, &replicationpb.ReplicationTask{SourceTaskId: id - 1, TaskType: 1,
 		RawTaskInfo: &persistencepb.ReplicationTaskInfo{NamespaceId: "ns-c06", WorkflowId: fmt.Sprintf("wf-%d", id), RunId: fmt.Sprintf("marker-%d-\x00ü", id), TaskId: id - 1, Version: id * 7}})
 }
+
+// sync-state message number id. The (deprecated) top-level watermark REPEATS for consecutive messages — a receiver
+// that is stuck re-announces its state, with flow control switching between PAUSE and RESUME — so a relay must not
+// treat "same top-level watermark" as "same message"; the identity is in the high-priority lane (id*3).
 func c06Ack(id int64) *repReq {
-	r := ackReq(id)
+	r := ackReq((id + 1) / 2)
 	r.GetSyncReplicationState().InclusiveLowWatermarkTime = timestamppb.New(time.Unix(1700000000+id, int64(id)%1000))
-	r.GetSyncReplicationState().HighPriorityState = &replicationpb.ReplicationState{InclusiveLowWatermark: id * 3}
+	fc := enumsspb.REPLICATION_FLOW_CONTROL_COMMAND_RESUME
+	if id%2 == 0 {
+		fc = enumsspb.REPLICATION_FLOW_CONTROL_COMMAND_PAUSE
+	}
+	r.GetSyncReplicationState().HighPriorityState = &replicationpb.ReplicationState{InclusiveLowWatermark: id * 3, FlowControlCommand: fc}
 	return r
+}
+
+func c06AckID(r *repReq) int64 {
+	return r.GetSyncReplicationState().GetHighPriorityState().GetInclusiveLowWatermark() / 3
 }
 
 func newC06World(t *testing.T, begin string) (*c06World, string) {
@@ -506,7 +519,7 @@ func (w *c06World) observe(evs [][]string) (string, string) {
 		ids = append(ids, fmt.Sprint(m.GetMessages().GetExclusiveHighWatermark()))
 	}
 	for _, m := range gotS[w.seenS:] {
-		sds = append(sds, fmt.Sprint(m.GetSyncReplicationState().GetInclusiveLowWatermark()))
+		sds = append(sds, fmt.Sprint(c06AckID(m)))
 	}
 	hint := fmt.Sprintf("%d %d", len(gotI)-w.seenI, len(gotS)-w.seenS)
 	newI, newS := len(gotI)-w.seenI, len(gotS)-w.seenS
@@ -701,7 +714,7 @@ func runC06E2E(t *testing.T, e *Env, transport, ending string, answers bool) (st
 					return
 				}
 				x.mu.Lock()
-				x.srcGot = append(x.srcGot, r.GetSyncReplicationState().GetInclusiveLowWatermark())
+				x.srcGot = append(x.srcGot, c06AckID(r))
 				x.mu.Unlock()
 			}
 		}()
